@@ -133,6 +133,12 @@ class RichDB(mm.GenDB):
                 order = [s_[3] for s_ in st if s_[0] == 'f']
                 mand = [f'{u}-is-elvar' for u in order if u in (X, Z)] + tops
                 hyps = []
+                if rng.random() < 0.5:
+                    # ... with an (unused) essential hypothesis over the THIRD variable of the `$d x y z` statement: the
+                    # slice then declares all three, and the pair X/Z may be non-adjacent in the statement
+                    W = next(u for u in ('x', 'y', 'z') if u not in (X, Z))
+                    hyps = [('e', f'{lab}.0', ['|-', '(', '\\eqq', W, W, ')'])]
+                    mand = [f'{u}-is-elvar' for u in order if u in (X, Z, W)] + tops + [f'{lab}.0']
             elif self.with_dv and rng.random() < 0.3:
                 # generalisation over x of a closed theorem (the $d of `gen` is satisfied trivially)
                 A, pa = mm.gen_tree(rng, self, rng.randint(1, 2), [])
